@@ -26,6 +26,7 @@ type GenConfig struct {
 	Deactivate bool // allow X (deactivate) steps
 	LostRetry  bool // allow Sl (response lost) ... Rt (retry later, after others acted)
 	OptOut     bool // some clients attach WithDisableGC
+	Compact    bool // allow K / Kf (compaction) steps
 }
 
 var keys = []string{"k1", "k2", "k3"}
@@ -145,7 +146,10 @@ func Generate(r *rng.R, g GenConfig) *History {
 		if lazy[c] == 1 {
 			wSync = 1
 		}
-		w := []int{10, wSync, 0, 0, 0, 0, 0, 0, 0, 0, 0}
+		w := []int{10, wSync, 0, 0, 0, 0, 0, 0, 0, 0, 0, 0}
+		if g.Compact {
+			w[11] = 2
+		}
 		if g.LostRetry {
 			w[9] = 2
 			w[10] = 2
@@ -198,6 +202,12 @@ func Generate(r *rng.R, g GenConfig) *History {
 				h.Steps = append(h.Steps, Step{Op: "D", C: c})
 			} else {
 				h.Steps = append(h.Steps, Step{Op: "A", C: c})
+			}
+		case 11:
+			if r.Chance(1, 2) {
+				h.Steps = append(h.Steps, Step{Op: "K", C: c})
+			} else {
+				h.Steps = append(h.Steps, Step{Op: "Kf", C: c})
 			}
 		case 9:
 			h.Steps = append(h.Steps, Step{Op: "Sl", C: c})
